@@ -1266,6 +1266,26 @@ def frag_dtauint_factor(fn):
     return [ast.fix_missing_locations(ast.Return(value=ren.visit(v)))]
 
 
+def frag_reweight_samples(fn):
+    """reweight: the two statements of the per-replica loop -- the weight's rows for the observable's configurations, and the
+    products of weight sample and observable sample -- as a function returning the products."""
+    import copy
+    want_loop = _d(ast.parse("sorted(obs[i].names)", mode="eval").body)
+    loops = [x for x in ast.walk(fn) if isinstance(x, ast.For) and _d(x.iter) == want_loop and isinstance(x.target, ast.Name) and x.target.id == "name"]
+    if len(loops) != 1 or len(loops[0].body) != 2:
+        raise TranslateError("reweight: the loop `for name in sorted(obs[i].names)` with two statements was not found exactly once")
+    st1, st2 = loops[0].body
+    if not (isinstance(st1, ast.Assign) and _d(st1.targets[0]).replace("Store()", "Load()") == _d(ast.parse("w_deltas[name]", mode="eval").body)):
+        raise TranslateError("reweight: the first statement of the replica loop does not assign w_deltas[name]")
+    if not (isinstance(st2, ast.Expr) and isinstance(st2.value, ast.Call) and _d(st2.value.func) == _d(ast.parse("new_samples.append", mode="eval").body) and len(st2.value.args) == 1):
+        raise TranslateError("reweight: the second statement of the replica loop is not new_samples.append(...)")
+    ren = _Rename({"w_deltas[name]": "wd", "weight.deltas[name]": "wdeltas", "weight.idl[name]": "widl", "obs[i].idl[name]": "oidl",
+                   "weight.r_values[name]": "wr", "obs[i].deltas[name]": "odeltas", "obs[i].r_values[name]": "orv"})
+    a = ast.Assign(targets=[ast.Name(id="wd", ctx=ast.Store())], value=ren.visit(copy.deepcopy(st1.value)))
+    r = ast.Return(value=ren.visit(copy.deepcopy(st2.value.args[0])))
+    return [ast.fix_missing_locations(a), ast.fix_missing_locations(r)]
+
+
 def frag_window_search(fn):
     """Obs.gamma_method: the automatic-windowing loop `for n in range(1, w_max): if g_w[n - 1] < 0 or n >= w_max - 1: ...; break`.
     The fragment is the search itself: which n the loop stops at (its body up to `break` is the bookkeeping of that n)."""
@@ -1424,6 +1444,9 @@ SIGS = [
     dict(coq="_reduce_deltas", py="_reduce_deltas", params=[("deltas", ARR), ("idx_old", IDL), ("idx_new", IDL)], ret=ARR),
     dict(coq="covariance_calc_gamma", py="_covariance_element.calc_gamma", needs=["_reduce_deltas"],
          params=[("deltas1", ARR), ("deltas2", ARR), ("idx1", IDL), ("idx2", IDL), ("new_idx", IDL)], ret=FLOAT),
+    dict(coq="reweight_samples", py="reweight", fragment=frag_reweight_samples, params=[], ret=ARR, needs=["_reduce_deltas"],
+         extra_params=[("v_wdeltas", ARR), ("v_widl", IDL), ("v_wr", FLOAT), ("v_odeltas", ARR), ("v_oidl", IDL), ("v_orv", FLOAT)],
+         env={"wdeltas": ARR, "widl": IDL, "wr": FLOAT, "odeltas": ARR, "oidl": IDL, "orv": FLOAT}),
     dict(coq="_expand_deltas_for_merge", py="_expand_deltas_for_merge",
          params=[("deltas", ARR), ("idx", IDL), ("shape", INT), ("new_idx", IDL), ("scalefactor", FLOAT)], ret=ARR),
 ]
